@@ -19,6 +19,7 @@ import NeoModel.Proofs.ExecSafeDev
 import NeoModel.Proofs.ExecLimit
 import NeoModel.Proofs.ExecCacheDeep
 import NeoModel.Proofs.ExecBlocked
+import NeoModel.Proofs.ExecStoreImm
 import NeoModel.Generated.ExcFacts
 namespace NeoModel.Exec
 
@@ -816,5 +817,38 @@ theorem blocked_cache_stale_index :
     Blocked.blockCoded cb [] 7 = [3, 7] ∧
     Blocked.isBlocked (Blocked.blockCoded cb [] 7) 7 = true ∧ Blocked.isBlocked (Blocked.blockCoded cb [] 7) 3 = true :=
   Blocked.blockStale_witness
+
+/-! ### 8. Stored values are immutable
+
+Nothing but System.Storage.Put / Delete and the native methods changes what the DAO shows: a value read from
+storage and whatever the VM does with those bytes afterwards (the harness: CAT / SUBSTR / LEFT / RIGHT / CONVERT /
+MEMCPY / PACK of it, then SETITEM / REVERSEITEMS / MEMCPY on the result — the driver reads such an `ED` node as a
+plain read), calls, internal calls, notifications, exception handling leave the ledger view exactly as it was. -/
+
+/-- for EVERY tree without put / delete / native call, every context and state (any stack of DAO layers):
+    the view after the run — at a normal end and at an exception — is the view before it. -/
+theorem only_put_del_native_change_store (t : Tree) (x : Ctx) (s : ISt) (h : writeFree t = true) :
+    match im t x s with
+    | .norm s' => s'.view = s.view
+    | .thrown s' => s'.view = s.view
+    | .fault _ => True := by
+  have := im_store_immutable t x s h
+  unfold ViewKept at this
+  exact this
+
+/-- ... so a transaction without writes leaves the block cache as it was, whether it HALTs or FAULTs. -/
+theorem write_free_tx_keeps_store (pre : Log) (t : Tree) (h : writeFree t = true) : (implRun pre t).store = pre := by
+  have := im_store_immutable t rootCtx ⟨[], [pre], [], false⟩ h
+  unfold implRun
+  cases hr : im t rootCtx ⟨[], [pre], [], false⟩ with
+  | norm s' => rw [hr] at this; simp only [ViewKept] at this; simpa [ISt.view, flatten] using this
+  | thrown s' => rfl
+  | fault s' => rfl
+
+-- non-vacuity: reads (edit nodes) in a callee under TRY that throws, in a committed callee, notifications: HALT, store unchanged
+example : writeFree (.call 0 Flags.all (.seq (.try_ (.call 1 Flags.all (.seq (.ifp 1 .skip) (.seq (.notify 2) .throw))) true (.notify 1) false .skip)
+    (.call 1 Flags.all (.ifp 1 .skip)))) = true := by decide
+example : (implRun [.set (1, 1) 7] (.call 0 Flags.all (.seq (.try_ (.call 1 Flags.all (.seq (.ifp 1 .skip) (.seq (.notify 2) .throw))) true (.notify 1) false .skip)
+    (.call 1 Flags.all (.ifp 1 .skip))))).eff = (true, [.set (1, 1) 7], [(0, 1)]) := by decide
 
 end NeoModel.Exec
